@@ -191,6 +191,10 @@ func solvePortfolioCtx(parent context.Context, file string, timeoutS int, agree 
 			best = r
 			if !agree {
 				cancel()
+			} else {
+				// agreement mode: give the other solvers a grace period to confirm, not the whole
+				// timeout (hard nonlinear goals are often decided by one configuration only)
+				time.AfterFunc(2*time.Second, cancel)
 			}
 		}
 		if agree && definite >= 2 {
